@@ -359,8 +359,34 @@ def check_imgvec(o):
         bad.append((tag + ": from_vector changed the image it was called on: " + same(s0, state(img)), {}, None))
     if c["cls"] != "BooleanImage":
         w[...] = 99
-        if np.array_equal(r2.as_vector(), w) and not np.array_equal(keep, w):
-            pass  # Image.from_vector(copy=True) by default: aliasing would show here
+        if not np.array_equal(r2.as_vector(), keep):
+            bad.append((tag + ": the image returned by from_vector follows later writes into the caller's vector", {}, None))
+        # the in-place form with its default (copying) behaviour: the receiver takes the values and nothing else of the vector
+        rin = img.copy()
+        wv = keep.copy()
+        rin.from_vector_inplace(wv)
+        if not np.array_equal(rin.as_vector(), keep):
+            bad.append((tag + ": from_vector_inplace(v) does not give an image whose vector is v", {}, None))
+        if np.shares_memory(rin.pixels, wv):
+            bad.append((tag + ": after from_vector_inplace(v) (copying by default) the image's pixels share memory with the caller's vector", {}, None))
+        wv[...] = 98
+        if not np.array_equal(rin.as_vector(), keep):
+            bad.append((tag + ": after from_vector_inplace(v) the image follows later writes into the caller's vector", {}, None))
+        # the optional channel count of Image.from_vector: with the image's own count nothing changes; landmarks come along
+        if c["cls"] == "Image":
+            for nc in (img.n_channels, 1):
+                if want.shape[0] % (nc * int(np.prod(sh))) != 0 and nc != img.n_channels:
+                    continue
+                vv = keep[: nc * int(np.prod(sh))].copy()
+                try:
+                    rn = img.from_vector(vv, n_channels=nc)
+                except Exception as e:
+                    bad.append((tag + ": from_vector(v, n_channels=%d) raised %s" % (nc, type(e).__name__), {}, None))
+                    continue
+                if rn.n_channels != nc or not np.array_equal(rn.as_vector(), vv):
+                    bad.append((tag + ": from_vector(v, n_channels=%d) does not give an image of that many channels holding v" % nc, {}, None))
+                if c["nlm"] > 0 and (not rn.has_landmarks or any(not np.array_equal(rn.landmarks[g].points, img.landmarks[g].points) for g in img.landmarks.group_labels)):
+                    bad.append((tag + ": from_vector(v, n_channels=%d) drops or changes the landmarks" % nc, {}, None))
     n = want.shape[0]
     for ln in (0, n - 1, n + 1, 2 * n):
         if ln == n or ln < 0:
